@@ -6,6 +6,7 @@ open Codec
 
 let handlers : (t -> (int * string list) option) list = [
   Cmd_filter.handle;
+  Cmd_cache.handle;
 ]
 
 let () =
